@@ -136,6 +136,7 @@ package kbin
 //@   prop C17
 //@   nopanic
 //@   modifies elems(dst)
+//@   ensures [int] (sameorigin(out, dst) && cap(out) == cap(dst)) || fresh(out)
 //@   ensures [int] len(out) == len(dst) + 1
 //@   ensures [int] forall k in 0..len(dst) :: out[k] == old(dst[k])
 //@   ensures out[len(dst)] == ite(v, byte(1), byte(0))
@@ -145,6 +146,7 @@ package kbin
 //@   prop C17
 //@   nopanic
 //@   modifies elems(dst)
+//@   ensures [int] (sameorigin(out, dst) && cap(out) == cap(dst)) || fresh(out)
 //@   ensures [int] len(out) == len(dst) + 1
 //@   ensures [int] forall k in 0..len(dst) :: out[k] == old(dst[k])
 //@   ensures [bv] out[len(dst)] == byte(i)
@@ -154,6 +156,7 @@ package kbin
 //@   prop C17
 //@   nopanic
 //@   modifies elems(dst)
+//@   ensures [int] (sameorigin(out, dst) && cap(out) == cap(dst)) || fresh(out)
 //@   ensures [int] len(out) == len(dst) + 2
 //@   ensures [int] forall k in 0..len(dst) :: out[k] == old(dst[k])
 //@   ensures [bv] be16at(out, len(dst)) == u
@@ -163,6 +166,7 @@ package kbin
 //@   prop C17
 //@   nopanic
 //@   modifies elems(dst)
+//@   ensures [int] (sameorigin(out, dst) && cap(out) == cap(dst)) || fresh(out)
 //@   ensures [int] len(out) == len(dst) + 2
 //@   ensures [int] forall k in 0..len(dst) :: out[k] == old(dst[k])
 //@   ensures [bv] be16at(out, len(dst)) == uint16(i)
@@ -172,6 +176,7 @@ package kbin
 //@   prop C17
 //@   nopanic
 //@   modifies elems(dst)
+//@   ensures [int] (sameorigin(out, dst) && cap(out) == cap(dst)) || fresh(out)
 //@   ensures [int] len(out) == len(dst) + 4
 //@   ensures [int] forall k in 0..len(dst) :: out[k] == old(dst[k])
 //@   ensures [bv] be32at(out, len(dst)) == u
@@ -181,6 +186,7 @@ package kbin
 //@   prop C17
 //@   nopanic
 //@   modifies elems(dst)
+//@   ensures [int] (sameorigin(out, dst) && cap(out) == cap(dst)) || fresh(out)
 //@   ensures [int] len(out) == len(dst) + 4
 //@   ensures [int] forall k in 0..len(dst) :: out[k] == old(dst[k])
 //@   ensures [bv] be32at(out, len(dst)) == uint32(i)
@@ -190,6 +196,7 @@ package kbin
 //@   prop C17
 //@   nopanic
 //@   modifies elems(dst)
+//@   ensures [int] (sameorigin(out, dst) && cap(out) == cap(dst)) || fresh(out)
 //@   ensures [int] len(out) == len(dst) + 8
 //@   ensures [int] forall k in 0..len(dst) :: out[k] == old(dst[k])
 //@   ensures [bv] be64at(out, len(dst)) == u
@@ -199,6 +206,7 @@ package kbin
 //@   prop C17
 //@   nopanic
 //@   modifies elems(dst)
+//@   ensures [int] (sameorigin(out, dst) && cap(out) == cap(dst)) || fresh(out)
 //@   ensures [int] len(out) == len(dst) + 8
 //@   ensures [int] forall k in 0..len(dst) :: out[k] == old(dst[k])
 //@   ensures [bv] be64at(out, len(dst)) == uint64(i)
@@ -208,6 +216,7 @@ package kbin
 //@   prop C17
 //@   nopanic
 //@   modifies elems(dst)
+//@   ensures [int] (sameorigin(out, dst) && cap(out) == cap(dst)) || fresh(out)
 //@   ensures [int] len(out) == len(dst) + uvlen32(u)
 //@   ensures [int] forall k in 0..len(dst) :: out[k] == old(dst[k])
 //@   ensures [bv] forall k in 0..5 :: k < uvlen32(u) ==> out[len(dst)+k] == uvbyte32(u, k)
@@ -217,6 +226,7 @@ package kbin
 //@   prop C17
 //@   nopanic
 //@   modifies elems(dst)
+//@   ensures [int] (sameorigin(out, dst) && cap(out) == cap(dst)) || fresh(out)
 //@   ensures [bv] len(out) == len(dst) + uvlen32(zz32(i))
 //@   ensures [int] forall k in 0..len(dst) :: out[k] == old(dst[k])
 //@   ensures [bv] forall k in 0..5 :: k < uvlen32(zz32(i)) ==> out[len(dst)+k] == uvbyte32(zz32(i), k)
@@ -226,6 +236,7 @@ package kbin
 //@   prop C17
 //@   nopanic
 //@   modifies elems(dst)
+//@   ensures [int] (sameorigin(out, dst) && cap(out) == cap(dst)) || fresh(out)
 //@   ensures [int] len(out) == len(dst) + uvlen64(u)
 //@   ensures [int] forall k in 0..len(dst) :: out[k] == old(dst[k])
 //@   ensures [bv] forall k in 0..10 :: k < uvlen64(u) ==> out[len(dst)+k] == uvbyte64(u, k)
@@ -235,6 +246,307 @@ package kbin
 //@   prop C17
 //@   nopanic
 //@   modifies elems(dst)
+//@   ensures [int] (sameorigin(out, dst) && cap(out) == cap(dst)) || fresh(out)
 //@   ensures [bv] len(out) == len(dst) + uvlen64(zz64(i))
 //@   ensures [int] forall k in 0..len(dst) :: out[k] == old(dst[k])
 //@   ensures [bv] forall k in 0..10 :: k < uvlen64(zz64(i)) ==> out[len(dst)+k] == uvbyte64(zz64(i), k)
+
+// ---- length-prefixed encoders (composition of the above through their contracts) ----
+
+//@ func AppendString(dst []byte, s string) (out []byte)
+//@   mode int bv
+//@   prop C17
+//@   nopanic
+//@   modifies elems(dst)
+//@   ensures [int] (sameorigin(out, dst) && cap(out) == cap(dst)) || fresh(out)
+//@   ensures [int] len(out) == len(dst) + 2 + len(s)
+//@   ensures [int] forall k in 0..len(dst) :: out[k] == old(dst[k])
+//@   ensures [int] forall j in 0..len(s) :: out[len(dst)+2+j] == s[j]
+//@   ensures [bv] be16at(out, len(dst)) == uint16(int16(len(s)))
+
+//@ func AppendCompactString(dst []byte, s string) (out []byte)
+//@   mode int bv
+//@   prop C17
+//@   nopanic
+//@   modifies elems(dst)
+//@   ensures [int] (sameorigin(out, dst) && cap(out) == cap(dst)) || fresh(out)
+//@   ensures [int] len(out) == len(dst) + uvlen32(1+uint32(len(s))) + len(s)
+//@   ensures [int] forall k in 0..len(dst) :: out[k] == old(dst[k])
+//@   ensures [int] forall j in 0..len(s) :: out[len(dst)+uvlen32(1+uint32(len(s)))+j] == s[j]
+//@   ensures [int] forall k in 0..5 :: k < uvlen32(1+uint32(len(s))) ==> out[len(dst)+k] == uvbyte32(1+uint32(len(s)), k)
+
+//@ func AppendBytes(dst []byte, b []byte) (out []byte)
+//@   mode int bv
+//@   requires disjoint(b, dst)     // b must not live in dst's spare capacity (it would be overwritten by the length)
+//@   prop C17
+//@   nopanic
+//@   modifies elems(dst)
+//@   ensures [int] (sameorigin(out, dst) && cap(out) == cap(dst)) || fresh(out)
+//@   ensures [int] len(out) == len(dst) + 4 + len(b)
+//@   ensures [int] forall k in 0..len(dst) :: out[k] == old(dst[k])
+//@   ensures [int] forall j in 0..len(b) :: out[len(dst)+4+j] == old(b[j])
+//@   ensures [bv] be32at(out, len(dst)) == uint32(int32(len(b)))
+
+//@ func AppendCompactBytes(dst []byte, b []byte) (out []byte)
+//@   mode int bv
+//@   requires disjoint(b, dst)
+//@   prop C17
+//@   nopanic
+//@   modifies elems(dst)
+//@   ensures [int] (sameorigin(out, dst) && cap(out) == cap(dst)) || fresh(out)
+//@   ensures [int] len(out) == len(dst) + uvlen32(1+uint32(len(b))) + len(b)
+//@   ensures [int] forall k in 0..len(dst) :: out[k] == old(dst[k])
+//@   ensures [int] forall j in 0..len(b) :: out[len(dst)+uvlen32(1+uint32(len(b)))+j] == old(b[j])
+//@   ensures [int] forall k in 0..5 :: k < uvlen32(1+uint32(len(b))) ==> out[len(dst)+k] == uvbyte32(1+uint32(len(b)), k)
+
+//@ func AppendNullableBytes(dst []byte, b []byte) (out []byte)
+//@   mode int bv
+//@   requires disjoint(b, dst)
+//@   prop C17
+//@   nopanic
+//@   modifies elems(dst)
+//@   ensures [int] (sameorigin(out, dst) && cap(out) == cap(dst)) || fresh(out)
+//@   ensures [int] b == nil ==> len(out) == len(dst) + 4
+//@   ensures [bv] b == nil ==> be32at(out, len(dst)) == 0xffffffff
+//@   ensures [int] b != nil ==> len(out) == len(dst) + 4 + len(b)
+//@   ensures [int] forall k in 0..len(dst) :: out[k] == old(dst[k])
+//@   ensures [int] b != nil ==> forall j in 0..len(b) :: out[len(dst)+4+j] == old(b[j])
+//@   ensures [bv] b != nil ==> be32at(out, len(dst)) == uint32(int32(len(b)))
+
+//@ func AppendVarintBytes(dst []byte, b []byte) (out []byte)
+//@   mode int bv
+//@   requires disjoint(b, dst)
+//@   prop C17
+//@   nopanic
+//@   modifies elems(dst)
+//@   ensures [int] (sameorigin(out, dst) && cap(out) == cap(dst)) || fresh(out)
+//@   ensures [bv] b == nil ==> len(out) == len(dst) + 1
+//@   ensures [bv] b == nil ==> out[len(dst)] == 1
+//@   ensures [bv] b != nil ==> len(out) == len(dst) + uvlen32(zz32(int32(len(b)))) + len(b)
+//@   ensures [int] forall k in 0..len(dst) :: out[k] == old(dst[k])
+
+//@ func AppendArrayLen(dst []byte, l int) (out []byte)
+//@   mode int bv
+//@   prop C17
+//@   nopanic
+//@   modifies elems(dst)
+//@   ensures [int] (sameorigin(out, dst) && cap(out) == cap(dst)) || fresh(out)
+//@   ensures [int] len(out) == len(dst) + 4
+//@   ensures [int] forall k in 0..len(dst) :: out[k] == old(dst[k])
+//@   ensures [bv] be32at(out, len(dst)) == uint32(int32(l))
+
+//@ func AppendCompactArrayLen(dst []byte, l int) (out []byte)
+//@   mode int bv
+//@   prop C17
+//@   nopanic
+//@   modifies elems(dst)
+//@   ensures [int] (sameorigin(out, dst) && cap(out) == cap(dst)) || fresh(out)
+//@   ensures [int] len(out) == len(dst) + uvlen32(1+uint32(l))
+//@   ensures [int] forall k in 0..len(dst) :: out[k] == old(dst[k])
+//@   ensures [bv] forall k in 0..5 :: k < uvlen32(1+uint32(l)) ==> out[len(dst)+k] == uvbyte32(1+uint32(l), k)
+
+//@ func AppendNullableArrayLen(dst []byte, l int, isNil bool) (out []byte)
+//@   mode int bv
+//@   prop C17
+//@   nopanic
+//@   modifies elems(dst)
+//@   ensures [int] (sameorigin(out, dst) && cap(out) == cap(dst)) || fresh(out)
+//@   ensures [int] len(out) == len(dst) + 4
+//@   ensures [int] forall k in 0..len(dst) :: out[k] == old(dst[k])
+//@   ensures [bv] be32at(out, len(dst)) == ite(isNil, 0xffffffff, uint32(int32(l)))
+
+//@ func AppendCompactNullableArrayLen(dst []byte, l int, isNil bool) (out []byte)
+//@   mode int bv
+//@   prop C17
+//@   nopanic
+//@   modifies elems(dst)
+//@   ensures [int] (sameorigin(out, dst) && cap(out) == cap(dst)) || fresh(out)
+//@   ensures [int] isNil ==> len(out) == len(dst) + 1
+//@   ensures [bv] isNil ==> out[len(dst)] == 0
+//@   ensures [int] !isNil ==> len(out) == len(dst) + uvlen32(1+uint32(l))
+//@   ensures [int] forall k in 0..len(dst) :: out[k] == old(dst[k])
+//@   ensures [bv] !isNil ==> forall k in 0..5 :: k < uvlen32(1+uint32(l)) ==> out[len(dst)+k] == uvbyte32(1+uint32(l), k)
+
+// ---- Reader: every method either consumes exactly its encoding or poisons the reader ----
+
+//@ func (b *Reader) Bool() (r bool)
+//@   mode bv
+//@   prop C17 C16
+//@   nopanic
+//@   modifies b.Src, b.bad
+//@   ensures old(len(b.Src)) < 1 ==> b.bad && b.Src == nil && !r
+//@   ensures old(len(b.Src)) >= 1 ==> b.bad == old(b.bad) && b.Src == old(b.Src[1:]) && r == (old(b.Src[0]) != 0)
+
+//@ func (b *Reader) Int8() (r int8)
+//@   mode bv
+//@   prop C17 C16
+//@   nopanic
+//@   modifies b.Src, b.bad
+//@   ensures old(len(b.Src)) < 1 ==> b.bad && b.Src == nil && r == 0
+//@   ensures old(len(b.Src)) >= 1 ==> b.bad == old(b.bad) && b.Src == old(b.Src[1:]) && r == int8(old(b.Src[0]))
+
+//@ func (b *Reader) Int16() (r int16)
+//@   mode bv
+//@   prop C17 C16
+//@   nopanic
+//@   modifies b.Src, b.bad
+//@   ensures old(len(b.Src)) < 2 ==> b.bad && b.Src == nil && r == 0
+//@   ensures old(len(b.Src)) >= 2 ==> b.bad == old(b.bad) && b.Src == old(b.Src[2:]) && r == int16(old(be16at(b.Src, 0)))
+
+//@ func (b *Reader) Uint16() (r uint16)
+//@   mode bv
+//@   prop C17 C16
+//@   nopanic
+//@   modifies b.Src, b.bad
+//@   ensures old(len(b.Src)) < 2 ==> b.bad && b.Src == nil && r == 0
+//@   ensures old(len(b.Src)) >= 2 ==> b.bad == old(b.bad) && b.Src == old(b.Src[2:]) && r == old(be16at(b.Src, 0))
+
+//@ func (b *Reader) Int32() (r int32)
+//@   mode bv
+//@   prop C17 C16
+//@   nopanic
+//@   modifies b.Src, b.bad
+//@   ensures old(len(b.Src)) < 4 ==> b.bad && b.Src == nil && r == 0
+//@   ensures old(len(b.Src)) >= 4 ==> b.bad == old(b.bad) && b.Src == old(b.Src[4:]) && r == int32(old(be32at(b.Src, 0)))
+
+//@ func (b *Reader) Uint32() (r uint32)
+//@   mode bv
+//@   prop C17 C16
+//@   nopanic
+//@   modifies b.Src, b.bad
+//@   ensures old(len(b.Src)) < 4 ==> b.bad && b.Src == nil && r == 0
+//@   ensures old(len(b.Src)) >= 4 ==> b.bad == old(b.bad) && b.Src == old(b.Src[4:]) && r == old(be32at(b.Src, 0))
+
+//@ func (b *Reader) readUint64() (r uint64)
+//@   mode bv
+//@   prop C17 C16
+//@   nopanic
+//@   modifies b.Src, b.bad
+//@   ensures old(len(b.Src)) < 8 ==> b.bad && b.Src == nil && r == 0
+//@   ensures old(len(b.Src)) >= 8 ==> b.bad == old(b.bad) && b.Src == old(b.Src[8:]) && r == old(be64at(b.Src, 0))
+
+//@ func (b *Reader) Int64() (r int64)
+//@   mode bv
+//@   prop C17 C16
+//@   nopanic
+//@   modifies b.Src, b.bad
+//@   ensures old(len(b.Src)) < 8 ==> b.bad && b.Src == nil && r == 0
+//@   ensures old(len(b.Src)) >= 8 ==> b.bad == old(b.bad) && b.Src == old(b.Src[8:]) && r == int64(old(be64at(b.Src, 0)))
+
+//@ func (b *Reader) Varint() (r int32)
+//@   mode bv
+//@   prop C17 C16
+//@   nopanic
+//@   modifies b.Src, b.bad
+//@   ensures old(uvN(b.Src)) <= 0 ==> b.bad && b.Src == nil && r == 0
+//@   ensures old(uvN(b.Src)) > 0 ==> b.bad == old(b.bad) && b.Src == old(b.Src[uvN(b.Src):]) && r == old(unzz32(uvX(b.Src)))
+
+//@ func (b *Reader) Uvarint() (r uint32)
+//@   mode bv
+//@   prop C17 C16
+//@   nopanic
+//@   modifies b.Src, b.bad
+//@   ensures old(uvN(b.Src)) <= 0 ==> b.bad && b.Src == nil && r == 0
+//@   ensures old(uvN(b.Src)) > 0 ==> b.bad == old(b.bad) && b.Src == old(b.Src[uvN(b.Src):]) && r == old(uvX(b.Src))
+
+//@ func (b *Reader) Varlong() (r int64)
+//@   mode bv
+//@   prop C17 C16
+//@   nopanic
+//@   modifies b.Src, b.bad
+//@   ensures old(uvN64(b.Src)) <= 0 ==> b.bad && b.Src == nil && r == 0
+//@   ensures old(uvN64(b.Src)) > 0 ==> b.bad == old(b.bad) && b.Src == old(b.Src[uvN64(b.Src):]) && r == old(unzz64(uvX64(b.Src)))
+
+//@ func (b *Reader) Span(l int) (s []byte)
+//@   mode bv
+//@   prop C17 C16
+//@   nopanic
+//@   modifies b.Src, b.bad
+//@   ensures (l < 0 || old(len(b.Src)) < l) ==> b.bad && b.Src == nil && s == nil
+//@   ensures (0 <= l && l <= old(len(b.Src))) ==> b.bad == old(b.bad) && s == old(b.Src[:l:l]) && b.Src == old(b.Src[l:])
+
+//@ func (b *Reader) Bytes() (s []byte)
+//@   mode bv
+//@   prop C17 C16
+//@   nopanic
+//@   modifies b.Src, b.bad
+//@   ensures len(b.Src) <= old(len(b.Src)) && (old(b.bad) ==> b.bad)
+//@   ensures len(s) <= old(len(b.Src))
+//@   ensures (old(len(b.Src)) >= 4 && int32(old(be32at(b.Src, 0))) >= 0 && int(int32(old(be32at(b.Src, 0)))) <= old(len(b.Src)) - 4)
+//@           ==> b.bad == old(b.bad) && s == old(b.Src[4:4+int(int32(be32at(b.Src, 0))):4+int(int32(be32at(b.Src, 0)))]) && len(b.Src) == old(len(b.Src)) - 4 - len(s)
+
+//@ func (b *Reader) NullableBytes() (s []byte)
+//@   mode bv
+//@   prop C17 C16
+//@   nopanic
+//@   modifies b.Src, b.bad
+//@   ensures len(b.Src) <= old(len(b.Src)) && (old(b.bad) ==> b.bad)
+//@   ensures len(s) <= old(len(b.Src))
+
+//@ func (b *Reader) CompactBytes() (s []byte)
+//@   mode bv
+//@   prop C17 C16
+//@   nopanic
+//@   modifies b.Src, b.bad
+//@   ensures len(b.Src) <= old(len(b.Src)) && (old(b.bad) ==> b.bad)
+//@   ensures len(s) <= old(len(b.Src))
+
+//@ func (b *Reader) CompactNullableBytes() (s []byte)
+//@   mode bv
+//@   prop C17 C16
+//@   nopanic
+//@   modifies b.Src, b.bad
+//@   ensures len(b.Src) <= old(len(b.Src)) && (old(b.bad) ==> b.bad)
+//@   ensures len(s) <= old(len(b.Src))
+
+//@ func (b *Reader) VarintBytes() (s []byte)
+//@   mode bv
+//@   prop C17 C16
+//@   nopanic
+//@   modifies b.Src, b.bad
+//@   ensures len(b.Src) <= old(len(b.Src)) && (old(b.bad) ==> b.bad)
+//@   ensures len(s) <= old(len(b.Src))
+
+// The array-length readers carry the allocation bound that decoders rely on (C16): a returned
+// length never exceeds the number of bytes left, so make([]T, n) is bounded by the input size.
+
+//@ func (b *Reader) ArrayLen() (r int32)
+//@   mode bv
+//@   prop C17 C16
+//@   nopanic
+//@   modifies b.Src, b.bad
+//@   ensures int(r) <= len(b.Src)
+//@   ensures len(b.Src) <= old(len(b.Src)) && (old(b.bad) ==> b.bad)
+//@   ensures (old(len(b.Src)) >= 4 && int(int32(old(be32at(b.Src, 0)))) <= old(len(b.Src)) - 4)
+//@           ==> b.bad == old(b.bad) && r == int32(old(be32at(b.Src, 0))) && b.Src == old(b.Src[4:])
+
+//@ func (b *Reader) VarintArrayLen() (r int32)
+//@   mode bv
+//@   prop C17 C16
+//@   nopanic
+//@   modifies b.Src, b.bad
+//@   ensures int(r) <= len(b.Src)
+//@   ensures len(b.Src) <= old(len(b.Src)) && (old(b.bad) ==> b.bad)
+
+//@ func (b *Reader) CompactArrayLen() (r int32)
+//@   mode bv
+//@   prop C17 C16
+//@   nopanic
+//@   modifies b.Src, b.bad
+//@   ensures int(r) <= len(b.Src)
+//@   ensures len(b.Src) <= old(len(b.Src)) && (old(b.bad) ==> b.bad)
+
+//@ func (b *Reader) Complete() (err error)
+//@   mode bv
+//@   prop C17 C16
+//@   nopanic
+//@   pure
+//@   ensures !b.bad ==> err == nil
+//@   ensures b.bad ==> err == ErrNotEnoughData
+
+//@ func (b *Reader) Ok() (ok bool)
+//@   mode bv
+//@   prop C17 C16
+//@   nopanic
+//@   pure
+//@   ensures ok <==> !b.bad
